@@ -28,6 +28,7 @@ EXPLANATION = (
     "the definitional factors (symbolic evaluation of remove_ind); (INTCOST) stored "
     "figures use integer arithmetic; (TOTALSTATE) totals and their flags are transferred "
     "unconditionally. "
+    'Round 7: (ORDER) a requested traversal order is handed on to every delegate of the tree that takes one. '
 )
 ASSUMPTIONS = ("compute_size_by_dict(indices, size_dict) is the product of the sizes of `indices`",)
 
